@@ -37,7 +37,7 @@ RULE = ("spec->impl: every multiset of <= N points of the 3x3 lattice (TLC-enume
         "data point (decided by the TLA+ operators TieAtK / QueryInData); an estimator prediction is non-trivial when more than one "
         "k-nearest set exists.  Cases are distinct by construction (each (data order, query, metric, structure, k) is generated once).")
 
-NOT_COVERED = ["Mahalanobis as the search metric", "data sets beyond 200 points",
+NOT_COVERED = ["Mahalanobis as the search metric", "data sets beyond ~1000 points (3000 in the thorough tier), single precision (f32)",
                "exactness of a returned distance below the resolution of the integer key / rank projection "
                "(a distance that differs from the true one by less than 1e-6 relative is not noticed on lattice data; on continuous "
                "data the returned distance is compared bit-exactly, through ranks, with the library's own metric)",
@@ -195,11 +195,11 @@ def run(ctx):
 
     # ------------------------------------------------------------------ 2. the real code
     files = {}      # name -> path of a recorded trace
-    for name, args in (("edge", ()), ("random", ()), ("est", ()), ("heap", (f_heap_in,)), ("lin", (f_lin_in,)),
-                       ("tree", (f_tree_in,))):
+    for name, args in (("edge", ()), ("random", ()), ("est", ()), ("ladder", ()), ("deep", ()), ("estbig", ()),
+                       ("heap", (f_heap_in,)), ("lin", (f_lin_in,)), ("tree", (f_tree_in,))):
         f = ctx.path("c04-%s.ndjson" % name)
         sub = {"edge": "gen-edge", "random": "gen-random", "est": "gen-est", "heap": "gen-heap", "lin": "gen-linfind",
-               "tree": "gen-tree"}[name]
+               "tree": "gen-tree", "ladder": "gen-ladder", "deep": "gen-deep", "estbig": "gen-estbig"}[name]
         ctx.harness(sub, *(list(args) + [f]))
         files[name] = f
 
@@ -211,7 +211,14 @@ def run(ctx):
         "est": ("KnnPredict", "ClsPred", "RegPred", "EstErr", "EstTieAtK", "EstDistance", "EstUnconstrained",
                 "EstN1clscover", "EstN1regcover", "EstN1clslinear", "EstN1reglinear",
                 "EstIdentclscover", "EstIdentregcover", "EstIdentclslinear", "EstIdentreglinear",
-                "EstWeightBeforeDistancecls", "EstWeightBeforeDistancereg", "EstViaFields", "EstDefaultMetric"),
+                "EstWeightBeforeDistancecls", "EstWeightBeforeDistancereg", "EstViaFields", "EstDefaultMetric",
+                "EstSignedZeroLabels", "EstApiinherent", "EstApitrait"),
+        # size ladder 63 .. 1025 (3000 thorough) for both structures; deep / multi-scale data; large estimators
+        "ladder": ("Sweep", "Find", "FindErr", "Radius", "RadiusErr", "RadiusAt", "linear", "cover",
+                   "NOver256cover", "NOver256linear", "NOver1024cover", "NOver1024linear"),
+        "deep": ("Sweep", "Find", "Radius", "RadiusAt", "TieAtK", "linear", "cover", "cont", "man", "euc"),
+        "estbig": ("KnnPredict", "ClsPred", "RegPred", "EstDistance", "EstBatchOver256", "EstBatchOver512", "EstTrainOver256",
+                   "EstApiinherent", "EstApitrait"),
         "heap": ("Heap", "HeapTlc"),
         "lin": ("LinFind",),
         "tree": ("Tree", "TreeFind"),
@@ -253,7 +260,8 @@ def run(ctx):
 
     par = 4 if tier == "quick" else 6
     with ThreadPoolExecutor(max_workers=par) as ex:
-        futs = [ex.submit(validate, n, files[n], must[n]) for n in ("edge", "random", "est", "heap", "lin", "tree")]
+        futs = [ex.submit(validate, n, files[n], must[n])
+                for n in ("estbig", "edge", "random", "est", "ladder", "deep", "heap", "lin", "tree")]
         futs += [ex.submit(lattice_job, ci) for ci in range(len(chunks))]
         for f in futs:
             f.result()
